@@ -8,7 +8,7 @@
 From Coq Require Import List Arith NArith ZArith Bool Lia ZifyBool Strings.Byte.
 From Coq Require Strings.String.
 From DX Require Import Bytes Res Codec Text Sections Header Stream Json Reader Writer TextFacts
-                       RoundTripCodec RoundTripCodecInst RoundTripContent.
+                       RoundTripCodec RoundTripCodecInst RoundTripCodecUtf RoundTripContent.
 From DXGen Require GenText GenCodecs.
 Import ListNotations.
 Import String.StringSyntax.
@@ -118,13 +118,208 @@ Proof.
   - rewrite Hal. injection Hg as <- <-. congruence.
 Qed.
 
-(* the newline a text already containing an LF is completed with does not change the guess *)
-Lemma find_app_some {A} (eqb : A -> A -> bool) : forall (pat l r : list A) i, find eqb pat l = Some i ->
-  find eqb pat (l ++ r) = Some i /\ firstn (i + length pat) (l ++ r) = firstn (i + length pat) l.
+(* completing a text that already contains an LF does not change the guess *)
+Section FindApp.
+  Context {A : Type} (eqb : A -> A -> bool).
+  Hypothesis eqb_spec : forall a b, eqb a b = true <-> a = b.
+
+  Lemma find_app_some : forall (pat l r : list A) i, find eqb pat l = Some i ->
+    find eqb pat (l ++ r) = Some i /\ i + length pat <= length l.
+  Proof.
+    intros pat l r. induction l as [|x l IH]; intros i H.
+    - unfold find in H. cbn [find_at] in H. destruct (prefixb eqb pat []) eqn:E; [|discriminate].
+      injection H as <-. destruct pat; [|discriminate]. split; [apply find_here; reflexivity | cbn; lia].
+    - destruct (prefixb eqb pat (x :: l)) eqn:E.
+      + rewrite (find_here eqb pat _ E) in H. injection H as <-. split.
+        * apply find_here. apply (prefixb_app_mono eqb eqb_spec). exact E.
+        * apply (prefixb_length eqb eqb_spec) in E. lia.
+      + rewrite (find_cons eqb eqb_spec pat x l E) in H. destruct (find eqb pat l) as [i'|]; [|discriminate].
+        cbn in H. injection H as <-. destruct (IH i' eq_refl) as [I1 I2].
+        cbn [app]. rewrite (find_cons eqb eqb_spec).
+        * rewrite I1. split; [reflexivity | cbn; lia].
+        * change (x :: l ++ r) with ((x :: l) ++ r). rewrite prefixb_app_long; [exact E | cbn; lia].
+  Qed.
+End FindApp.
+
+Lemma guess_text_app : forall t r, find N.eqb (nl_text GenText.le_unix) t <> None ->
+  guess_line_endings_text (t ++ r) = guess_line_endings_text t.
 Proof.
-  intros pat l r. unfold find. generalize 0 as k.
-  induction l as [|x l IH]; intros k i H; cbn [find_at app] in *.
-  - destruct (prefixb eqb pat []) eqn:E; [|discriminate]. destruct pat; [|discriminate].
-    injection H as <-. cbn. split; [destruct r; reflexivity|]. rewrite Nat.add_0_r.
-    admit.
-Abort.
+  intros t r H. unfold guess_line_endings_text.
+  destruct (find N.eqb (nl_text GenText.le_unix) t) as [i|] eqn:E; [|congruence].
+  destruct (find_app_some N.eqb N_eqb_spec _ t r i E) as [E1 E2]. rewrite E1.
+  rewrite firstn_app. replace (i + length (nl_text GenText.le_unix) - length t) with 0 by lia.
+  cbn [firstn]. rewrite app_nil_r. reflexivity.
+Qed.
+
+Lemma guess_text_final : forall t nl, find N.eqb (nl_text GenText.le_unix) t <> None ->
+  guess_line_endings_text (final_text nl t) = guess_line_endings_text t.
+Proof.
+  intros t nl H. unfold final_text. destruct (suffixb N.eqb nl t); [reflexivity | apply guess_text_app; exact H].
+Qed.
+
+(* ------------------------------------------------------------------------------------------------ *)
+(* the round trip for metadata-like sections: no line_endings and no indent in the header *)
+
+Theorem content_round_trip_meta :
+  forall enc, codec_ok_aligned enc ->
+  forall (s : wstate) (e t : text) (x : bytes),
+    c_enc ascii e = Some enc -> t <> [] -> py_encode t enc = Ok x ->
+    find N.eqb (nl_text GenText.le_unix) t <> None ->
+    exists body le nl nlb lines,
+      guess_line_endings_text t = (le, nl) /\
+      get_newline_for_type le (Some enc) = Ok nlb /\
+      py_encode (final_text nl t) enc = Ok body /\
+      split_lines body nlb true = Ok lines /\
+      prepare_content s (CText t) WNone WNone (WStr e) true = Ok (body, WStr (ascii_text le)) /\
+      forall st rest, remaining (st_stream st) = body ++ rest -> (Z.of_nat (length body) <= sys_maxsize)%Z ->
+        exists st',
+          read_content st (Z.of_nat (length body)) (Some (VStr enc)) None None false
+            = COk (PText (final_text nl t)) st' /\
+          remaining (st_stream st') = rest /\
+          st_linenum st' = (st_linenum st + Z.of_nat (length lines))%Z /\
+          st_fnl st' = st_fnl st.
+Proof.
+  intros enc [c [bom [enc0 [laws Hal]]]] s e t x He Ht Hx Hlf.
+  destruct (encodable_of_py_encode enc c bom enc0 laws t x Hx) as [b [Hb _]].
+  destruct (content_round_trip_guess enc c bom enc0 laws s e t b WNone WNone He Ht Hb la_none ia_none)
+    as [body [le [nl [nlb [b' [lines [H1 [H2 [H3 [H4 [H5 [H6 [H7 H8]]]]]]]]]]]]].
+  cbn [resolve_le] in H1. cbn [indent_body] in H6. subst body.
+  destruct (resolve_le_ok WNone t le nl la_none H1) as [Hv [Hassoc _]].
+  destruct (newline_bytes enc c bom enc0 laws le Hv) as [nlb' [N1 [_ [N3 _]]]].
+  destruct (le_values_facts le Hv) as [_ [_ [Hassoc' _]]].
+  assert (nl = nl_text le) by congruence. subst nl. rewrite H3 in N1. injection N1 as <-.
+  exists (bom ++ b'), le, (nl_text le), nlb, lines.
+  repeat (split; [first [assumption | apply (py_encode_laws enc c bom enc0 laws); assumption]|]).
+  intros st rest. apply (H8 st rest).
+  exists le. apply (guess_bytes_text enc c bom enc0 laws Hal (final_text (nl_text le) t) b' le (nl_text le) nlb H4); [|exact H3].
+  rewrite guess_text_final by exact Hlf. exact H1.
+Qed.
+
+(* ------------------------------------------------------------------------------------------------ *)
+(* alignment for code-point codecs whose LF is one byte that occurs in no other encoding *)
+
+Section AlignedCp.
+  Variables (f : N -> option bytes) (bom : bytes) (n : N) (z : byte).
+  Hypothesis Hunix : nl_text GenText.le_unix = [n].
+  Hypothesis Hfn : f n = Some [z].
+  Hypothesis Honly : forall c x, f c = Some x -> In z x -> c = n.
+  Hypothesis Hbom : ~ In z bom.
+
+  Lemma aligned_aux : forall t pre b, ~ In z pre -> enc_all f t = Some b ->
+    match find N.eqb [n] t with
+    | Some i => exists b1, enc_all f (firstn (i + 1) t) = Some b1 /\
+                           bfind [z] (pre ++ b) = Some (length (pre ++ b1) - 1) /\ 1 <= length b1
+    | None => bfind [z] (pre ++ b) = None
+    end.
+  Proof.
+    induction t as [|c r IH]; intros pre b Hpre Hb; cbn [enc_all] in Hb.
+    - injection Hb as <-. rewrite app_nil_r. change (find N.eqb [n] []) with (@None nat).
+      apply (find_one_absent byte_eqb byte_eqb_spec). exact Hpre.
+    - destruct (f c) as [x|] eqn:Ec; [|discriminate]. destruct (enc_all f r) as [b'|] eqn:Er; [|discriminate].
+      injection Hb as <-. destruct (N.eqb n c) eqn:E.
+      + apply N.eqb_eq in E. subst c. rewrite find_here by (rewrite prefixb_one; apply N.eqb_refl).
+        rewrite Hfn in Ec. injection Ec as <-.
+        exists [z]. cbn [Nat.add firstn enc_all]. rewrite Hfn. split; [reflexivity|]. split; [|cbn; lia].
+        cbn [app]. unfold bfind. rewrite (find_one_first byte_eqb byte_eqb_spec z pre b' Hpre).
+        rewrite app_length. cbn. f_equal. lia.
+      + rewrite (find_cons N.eqb N_eqb_spec) by (rewrite prefixb_one; exact E).
+        assert (Hx : ~ In z x).
+        { intros Hi. apply (Honly c x Ec) in Hi. subst c. rewrite N.eqb_refl in E. discriminate. }
+        assert (Hpre' : ~ In z (pre ++ x)) by (rewrite in_app_iff; tauto).
+        specialize (IH (pre ++ x) b' Hpre' eq_refl). rewrite <- app_assoc in IH.
+        destruct (find N.eqb [n] r) as [i|]; cbn [option_map].
+        * destruct IH as [b1 [I1 [I2 I3]]]. exists (x ++ b1). cbn [Nat.add firstn enc_all]. rewrite Ec, I1.
+          split; [reflexivity|]. split; [|rewrite app_length; lia].
+          rewrite I2. rewrite <- app_assoc. reflexivity.
+        * exact IH.
+  Qed.
+
+  Lemma aligned_of_cp : aligned_first_nl bom (enc_all f).
+  Proof.
+    intros t b nlbu Hb Hnu. rewrite Hunix in *. rewrite enc_all_one, Hfn in Hnu. injection Hnu as <-.
+    pose proof (aligned_aux t bom b Hbom Hb) as H. cbn [length].
+    destruct (find N.eqb [n] t) as [i|]; [|exact H].
+    destruct H as [b1 [H1 [H2 H3]]]. exists b1. auto.
+  Qed.
+End AlignedCp.
+
+Lemma n_byte_eq : forall v z, (v < 256)%N -> n_byte v = z -> v = byte_n z.
+Proof. intros v z Hv <-. symmetry. apply byte_n_n_byte. exact Hv. Qed.
+
+Lemma enc1_only : forall limit, (limit <= 256)%N -> forall c x, enc1 limit c = Some x -> In x0a x -> c = 10%N.
+Proof.
+  intros limit Hl c x H Hi. unfold enc1 in H. destruct (c <? limit)%N eqn:E; [|discriminate].
+  injection H as <-. destruct Hi as [Hi|[]]. apply n_byte_eq in Hi; [exact Hi | lia].
+Qed.
+
+Lemma aligned_single : forall limit, (limit <= 256)%N -> (10 <? limit)%N = true -> aligned_first_nl [] (enc_all (enc1 limit)).
+Proof.
+  intros limit Hl H10. apply (aligned_of_cp (enc1 limit) [] 10%N x0a).
+  - vm_compute. reflexivity.
+  - unfold enc1. rewrite H10. reflexivity.
+  - apply enc1_only. exact Hl.
+  - intros [].
+Qed.
+
+Theorem codec_ok_aligned_ascii : forall enc c, lookup_codec enc = LOk (B "ascii") c -> codec_ok_aligned enc.
+Proof.
+  intros enc c H. pose proof H as H0. canon_is "ascii" ascii H0.
+  exists ascii, [], (enc_all (enc1 128)). split.
+  - apply (laws_single 128 ascii ltac:(lia) eq_refl enc (B "ascii") H). vm_compute. reflexivity.
+  - apply aligned_single; [lia | reflexivity].
+Qed.
+
+Theorem codec_ok_aligned_latin1 : forall enc c, lookup_codec enc = LOk (B "iso8859-1") c -> codec_ok_aligned enc.
+Proof.
+  intros enc c H. pose proof H as H0. canon_is "iso8859-1" latin1 H0.
+  exists latin1, [], (enc_all (enc1 256)). split.
+  - apply (laws_single 256 latin1 ltac:(lia) eq_refl enc (B "iso8859-1") H). vm_compute. reflexivity.
+  - apply aligned_single; [lia | reflexivity].
+Qed.
+
+(* utf-8 / utf-8-sig: every byte of a multi-byte sequence is >= 0x80 *)
+Ltac Zify.zify_post_hook ::= Z.to_euclidean_division_equations.
+
+Lemma u8_only : forall c x, u8_enc_cp c = Some x -> In x0a x -> c = 10%N.
+Proof.
+  intros c x H Hi. unfold u8_enc_cp in H.
+  assert (K : forall v, (v < 256)%N -> n_byte v = x0a -> v = 10%N).
+  { intros v Hv E. apply n_byte_eq in E; [exact E | exact Hv]. }
+  destruct (c <? 0x80)%N eqn:E1.
+  { apply some_inj in H; subst x. destruct Hi as [Hi|[]]. apply K in Hi; [exact Hi | lia]. }
+  destruct (c <? 0x800)%N eqn:E2.
+  { apply some_inj in H; subst x. cbn [In] in Hi. destruct Hi as [Hi|[Hi|[]]]; apply K in Hi; lia. }
+  destruct (c <? 0x10000)%N eqn:E3.
+  { destruct (is_surrogate c); [discriminate|]. apply some_inj in H; subst x. cbn [In] in Hi.
+    destruct Hi as [Hi|[Hi|[Hi|[]]]]; apply K in Hi; lia. }
+  destruct (c <=? 0x10FFFF)%N eqn:E4; [|discriminate].
+  apply some_inj in H; subst x. cbn [In] in Hi. destruct Hi as [Hi|[Hi|[Hi|[Hi|[]]]]]; apply K in Hi; lia.
+Qed.
+
+Lemma aligned_u8 : forall bom, ~ In x0a bom -> aligned_first_nl bom (enc_all u8_enc_cp).
+Proof.
+  intros bom Hb. apply (aligned_of_cp u8_enc_cp bom 10%N x0a).
+  - vm_compute. reflexivity.
+  - reflexivity.
+  - exact u8_only.
+  - exact Hb.
+Qed.
+
+Theorem codec_ok_aligned_utf8 : forall enc c, lookup_codec enc = LOk (B "utf-8") c -> codec_ok_aligned enc.
+Proof.
+  intros enc c H. pose proof H as H0. canon_is "utf-8" utf8 H0.
+  exists utf8, [], (enc_all u8_enc_cp). split.
+  - apply (codec_laws_of_cp enc (B "utf-8") utf8 [] u8_enc_cp u8_dec); auto using u8_step, u8_nl_ok.
+    + intros t. rewrite option_map_app_nil. reflexivity.
+    + vm_compute. reflexivity.
+  - apply aligned_u8. intros [].
+Qed.
+
+Theorem codec_ok_aligned_utf8sig : forall enc c, lookup_codec enc = LOk (B "utf-8-sig") c -> codec_ok_aligned enc.
+Proof.
+  intros enc c H. pose proof H as H0. canon_is "utf-8-sig" utf8sig H0.
+  exists utf8sig, bom8, (enc_all u8_enc_cp). split.
+  - apply (codec_laws_of_cp enc (B "utf-8-sig") utf8sig bom8 u8_enc_cp u8_dec); auto using u8_step, u8_nl_ok.
+    vm_compute. reflexivity.
+  - apply aligned_u8. cbv. intuition discriminate.
+Qed.
